@@ -5,7 +5,7 @@ import props
 
 ID = "C12"
 INFO = ("YPos (TLA+ reference: position table by counting breaks and characters, bounds, span order, nesting, exact one-line plain spans, quoted spans, printed error form, "
-        "marked-node spans) is an invariant (PosTrue) of MC_Pipeline on every text <= N over 8 alphabets (the model computes marks the way the scanner does; replay binds it to the code), "
+        "marked-node spans) is an invariant (PosTrue) of MC_Pipeline on every text <= N over 10 alphabets (the model computes marks the way the scanner does; replay binds it to the code), "
         "and Trace_Pos judges in TLC the spans, errors, printed errors and MarkedYaml/MarkedYamlOwned node spans the real code produced for every pool text (<= 160 characters), both back-ends.",
         "NUL ends the input for the scanner: positions are judged against the input up to the first NUL. The synthesized null scalar '~' is exempt from the exact-span rule. "
         "Marked-node spans are judged on inputs without aliases and duplicate keys (one node per node event).",
